@@ -10,7 +10,7 @@ R37e  check_immutability of each QoS type compares (at least) the policies DDS m
 """
 from vplib import expr as E
 from vplib.facts import short_ty, Place
-from rules.common import FnCtx, cmp_norm, adder
+from rules.common import compared_param_fields, FnCtx, cmp_norm, adder
 
 TECHNIQUE = "guard-free path search from function entry to every QoS store (is_consistent / check_immutability edges), sibling agreement over set_qos / create functions, field-set table for immutability"
 ASSUMPTIONS = ["DDS 1.4 §2.2.3 'Changeable' column transcribed in IMMUTABLE"]
@@ -141,13 +141,7 @@ def run(ctx, rep):
         for b in fns:
             k += 1
             fc = FnCtx(b)
-            got = set()
-            for sb, ce in fc.ces.items():
-                c = cmp_norm(E.strip_casts(ce.expr))
-                if c and c[0] in ("Ne", "Eq"):
-                    for x in (c[1], c[2]):
-                        if x[0] == "param" and x[2]:
-                            got.add(x[2][0])
+            got = compared_param_fields(fc)
             rep.add("R37e", b.sname, "immutable policies of %s are all compared" % ty, want <= got,
                     "not compared: %s" % sorted(want - got), b.loc())
     rep.floor("R37e", k, 3, "check_immutability functions")
